@@ -68,6 +68,8 @@ W_FLAT = {
 }
 
 W_MIX_ATTR = dict(W_MIX, name="W-mix-attr", refattr=True)
+# the function task's action assigns its targets through the manager's references (nested plain-value assignments)
+W_FLAT_REFS = dict(W_FLAT, name="W-flat-refs", fun_via_refs=True)
 
 # two linear knobs sharing a target (and a reader of that target)
 W_KNOBS = {
@@ -88,7 +90,7 @@ W_DEEP = {
     "funs": {}, "knobs": {},
 }
 
-WORLDS = {w["name"]: w for w in (W_NEST, W_NEST_4, W_NEST_SMALL, W_MIX, W_FLAT, W_MIX_ATTR, W_DEEP, W_KNOBS)}
+WORLDS = {w["name"]: w for w in (W_NEST, W_NEST_4, W_NEST_SMALL, W_MIX, W_FLAT, W_MIX_ATTR, W_DEEP, W_KNOBS, W_FLAT_REFS)}
 
 
 def tmpl(name, args):
